@@ -20,6 +20,21 @@ func vStdLog() vLogOpts {
 
 // vSender returns a symbolic sender id: any member id, or 9 for a replica that
 // is not (or no longer) a member.  It is never the local replica.
+// vLeaderSender is the sender of a leader message (Replicate, Heartbeat,
+// InstallSnapshot): its identity only ends up in leaderID, so the quick tier
+// uses one voting member; the thorough tier any member or non-member.
+func vLeaderSender(c vCluster) uint64 {
+	if vTier() > 0 {
+		return vSender(c)
+	}
+	for _, id := range c.shape.voters {
+		if id != c.self {
+			return id
+		}
+	}
+	return 9
+}
+
 func vSender(c vCluster) uint64 {
 	from := vU64("from")
 	vAssume(from != c.self)
@@ -29,7 +44,7 @@ func vSender(c vCluster) uint64 {
 
 // C03: RequestVote from an arbitrary state: one vote per term, a grant is
 // recorded, election restriction (V1 V2 V3) + every frame lemma.
-//vcheck: reach=granted,rejected,done workers=16
+// vcheck: reach=granted,rejected,done workers=16
 func VHarness_C03_RequestVote() {
 	r, c := vRaft(vRaftOpts{shapes: vQuickShapes(), log: vStdLog(), flags: true, maxRead: vTier()})
 	p := vRecord(r)
@@ -60,7 +75,7 @@ func VHarness_C03_RequestVote() {
 
 // C03/C02: a message carrying a term lower than the local term never changes
 // term, vote, role or log (it is dropped, at most answered with NoOP).
-//vcheck: reach=done workers=16
+// vcheck: reach=done workers=16
 func VHarness_C03_StaleTerm() {
 	r, c := vRaft(vRaftOpts{shapes: vQuickShapes(), log: vStdLog(), flags: true})
 	p := vRecord(r)
